@@ -54,6 +54,10 @@ CHECKS['C12'] = ('E1', 'model_checking',
     'Explicit-state BFS over histories of peer actions (connect, send 1/5/5124 bytes, shutdown(WR), close, close with unread data) and server-side actions (write, 1 MiB write while the peer does not read, close, and late write/close after the disconnect) on up to two concurrent connections to a real UNIXServer, replayed on fresh sockets under Select, Poll and EPoll with deterministic zero-time-out loop iterations; plus client histories for a real UNIXClient against a harness-driven listener. Judged on every state: per socket the observer stream is connect, read*, disconnect with nothing afterwards; read data equals (or, if the server closed, is a prefix of) what the peer sent; every ended connection gets its disconnect; after the disconnect neither the server (_clients/_buffers/_closeq) nor the poller (_read/_write/_targets/_map) retains the socket; no handler raises; the three pollers show the same streams; one disconnected per connected on the client.',
     'Trusted: AF_UNIX semantics (synchronous peer effects); TCP RST via SO_LINGER is not in the alphabet; residue clause reads internal tables through getattr.',
     'explicit-state BFS over connection histories on real sockets under three pollers', 'DESIGN.md 6/C12')
+CHECKS['C20'] = ('E4', 'model_checking',
+    'Three bounded-exhaustive families on fresh real objects: (auth) every configuration (user tables incl. users with guessable derived passwords, dict/callable tables, realms, methods, encrypt kinds) x every Authorization header of a grammar covering Basic and Digest (users absent from the table, right/wrong/None/empty passwords, realm and method mismatches, qop/nc/cnonce/algorithm variants, every subset of required Digest fields missing, bad base64, no space, unknown scheme) through check_auth, basic_auth and digest_auth, judged by a three-valued reference verifier built on an independent RFC 2617 implementation; (sess) every sequence of 2-3 requests over 8 clients x 9 cookie kinds through a real Sessions component with scripted uuid4, judged by a reference store keyed by (sid, client); (vhost) every trusted-gateway list x remote address x X-Forwarded-Host x Host x path through a real VirtualHosts, differential oracle.',
+    'Trusted: the independent RFC 2617 reference; an exception escaping the auth functions counts as refusal; completeness judged for canonical spellings only; nonce/uri validation not judged.',
+    'bounded-exhaustive input/configuration enumeration against reference verifiers', 'DESIGN.md 6/C20')
 NOT_YET = {}
 def main():
     props = [json.loads(l) for l in open(os.path.join(HERE, 'properties.jsonl'))]
